@@ -69,6 +69,12 @@ def main():
         old = json.loads(out.read_text())
         old.update(summary)
         summary = {k: old[k] for k in sorted(old) if (SEEDED / k / "patch.diff").exists()}
+    if out.exists():
+        # patches made against an earlier /repo head that no longer apply after a fix: commit keep their last verdict, marked stale
+        for k, v in json.loads(out.read_text()).items():
+            if k not in summary and v.get("stale") and (SEEDED / k / "patch.diff").exists():
+                summary[k] = v
+        summary = {k: summary[k] for k in sorted(summary)}
     out.write_text(json.dumps(summary, indent=1))
 
 
